@@ -20,7 +20,8 @@ def gen_cases(ck):
 
     def add(tree, tag):
         wire = g.to_wire(tree)
-        socket = rng.random() < 0.5 and len(json.dumps(wire)) < 6000
+        # the exchange goes through a real Connection whose buffer limit under cfg(zlink_verif) is 4096 bytes
+        socket = rng.random() < 0.5 and len(g.canonical_text(tree)) < 1200
         cases.append({"id": len(cases), "op": "build", "tree": wire, "tag": tag, "socket": socket})
 
     corpus = os.path.join(VERIF, "corpus", "c14.jsonl")
@@ -58,7 +59,7 @@ def parser_made_cases(ck, cases):
     for r in res:
         if r.get("class") == "ok":
             cases.append({"id": len(cases), "op": "build", "tree": r["tree"], "tag": "parser_made",
-                          "socket": rng.random() < 0.3})
+                          "socket": rng.random() < 0.3 and len(r["display"]) < 2400})
 
 
 def opt_tree(rep):
